@@ -1,8 +1,13 @@
 package props
 
 import (
+	"bytes"
 	"fmt"
 	"strings"
+
+	"github.com/fluhus/biostuff/align"
+
+	"verif/mc/engine/enum"
 
 	"verif/mc/engine/core"
 	"verif/mc/ref"
@@ -249,3 +254,79 @@ func matrixMutationHistories2(r *core.Run) {
 }
 
 var mutClauseName = "matrix-mutation-histories"
+
+// alnAliasCase: a and b are windows of ONE buffer (the same slice when the windows coincide).
+// The property is about the contents of a and b; where they live in memory must play no role.
+type alnAliasCase struct {
+	Fn     string `json:"fn"`
+	Buf    core.S `json:"buffer"`
+	A0     int    `json:"a_from"`
+	A1     int    `json:"a_to"`
+	B0     int    `json:"b_from"`
+	B1     int    `json:"b_to"`
+	Matrix string `json:"matrix"`
+}
+
+// alignAliasing enumerates every pair of windows of every buffer up to the bound (this includes
+// a and b being the very same slice, nested and partially overlapping windows) and judges each
+// result exactly like a call on two separately allocated sequences.
+func alignAliasing(r *core.Run, sigma string, L int, matrices []string, judge func(c alnCase, res alnResult, changed bool) core.Outcome) {
+	core.Clause(r, "aliased-arguments", core.Opts{Rule: fmt.Sprintf("a and b are windows [i:j] and [k:l] of ONE buffer: every buffer over {%s} up to length %d x every pair of windows (coinciding = the same slice passed twice, nested, overlapping, adjacent, empty) x %d matrices x {Global, Local}; judged like any other call and the buffer must be unchanged; non-trivial = both windows non-empty", sigma, L, len(matrices)),
+		Bounds: fmt.Sprintf("buffers up to length %d over %q, all window pairs", L, sigma)},
+		func(emit func(alnAliasCase) bool) {
+			for _, fn := range bothFns {
+				for _, mn := range matrices {
+					ok := enum.Strings(sigma, L, func(s string) bool {
+						n := len(s)
+						for a0 := 0; a0 <= n; a0++ {
+							for a1 := a0; a1 <= n; a1++ {
+								for b0 := 0; b0 <= n; b0++ {
+									for b1 := b0; b1 <= n; b1++ {
+										if !emit(alnAliasCase{fn, core.S(s), a0, a1, b0, b1, mn}) {
+											return false
+										}
+									}
+								}
+							}
+						}
+						return true
+					})
+					if !ok {
+						return
+					}
+				}
+			}
+		},
+		func(c alnAliasCase) core.Outcome {
+			buf := c.Buf.B()
+			buf0 := bytes.Clone(buf)
+			a, b := buf[c.A0:c.A1], buf[c.B0:c.B1]
+			m := matrixByName(c.Matrix)
+			var res alnResult
+			res.panicS = catch(func() {
+				if c.Fn == "Global" {
+					st, sc := align.Global(a, b, m)
+					res.steps, res.score = stepsBytes(st), sc
+				} else {
+					st, ai, bi, sc := align.Local(a, b, m)
+					res.steps, res.ai, res.bi, res.score = stepsBytes(st), ai, bi, sc
+				}
+			})
+			out := judge(alnCase{c.Fn, core.S(buf0[c.A0:c.A1]), core.S(buf0[c.B0:c.B1]), c.Matrix}, res, !bytes.Equal(buf, buf0))
+			if out.Fail == "" && out.Known == "" {
+				rel := "disjoint"
+				switch {
+				case c.A0 == c.B0 && c.A1 == c.B1:
+					rel = "same slice"
+				case c.A0 < c.B1 && c.B0 < c.A1:
+					rel = "overlapping"
+				}
+				out.Class = c.Fn + " " + rel
+				out.Nontrivial = c.A1 > c.A0 && c.B1 > c.B0
+			}
+			if out.Fail != "" {
+				out.Fail = fmt.Sprintf("with a = buf[%d:%d] and b = buf[%d:%d] of one buffer %q: %s", c.A0, c.A1, c.B0, c.B1, buf0, out.Fail)
+			}
+			return out
+		})
+}
